@@ -7,9 +7,9 @@ untouched_bytes_zero, new_without_init_is_zero, varsize_stores_fit_partial, vars
 add_varsize_sound, add_varsize_overflow_exact, sizeof_reports_allocated,
 sizeof_array_reports_allocated, union_seq_sets_first_member, seq_fills_leading_fields,
 dict_sets_named_fields, too_many_initialisers_rejected (+ assignment / array / bytes variants), and the
-four statements about the code as it is (finding classes): varsize_toplevel_cdata_differs,
-varsize_struct_as_array_item_overflows, zero_size_open_array_item_divides_by_zero,
-packed_bitfield_unit_overruns.
+positive statements for two defects repaired in /repo (varsize_toplevel_cdata_like_assignment,
+zero_size_open_array_items_take_no_space) and the two statements about the code as it is (finding
+classes): varsize_struct_as_array_item_overflows, packed_bitfield_unit_overruns.
 
 Tie to the code: random aggregate types are declared through the real cdef parser; their
 layout (offsets, sizes, bit positions, BF_IGNORE_IN_CTOR flags) is read back from
@@ -23,8 +23,9 @@ size computation is reported before it can corrupt the heap of the checking proc
   itemwise p = ffi.new(T); p.f = v ... / a[i] = v ...      (valid list/dict initialisers)
 and against a plain-Python oracle that computes the expected image from ffi's own offsets
 with int.to_bytes / struct.pack (an independent re-implementation; it also decides, before
-anything runs, whether an input belongs to one of the two memory-unsafe finding classes, which
-are then never executed in-process).
+anything runs, whether an input belongs to one of the two memory-unsafe finding classes -- arrays
+of var-sized structs given array data, packed bit-fields whose storage unit passes the end of the
+struct -- which are then never executed in-process).
 """
 import json
 import os
@@ -49,8 +50,9 @@ MANIFEST = {
     "note": "Trusted: Lean kernel; the harness (type generator, oracle, protocol); layouts are inputs taken from the real "
             "ffi.typeof(T).fields (C01 is about their correctness). Not modelled: float/complex/wide-char leaves, str "
             "initialisers beyond their TypeError, custom allocators, calloc failure other than an abstract limit. Two "
-            "memory-unsafe inputs of the real code (arrays of var-sized structs; open arrays of zero-size items) are "
-            "finding classes, proved to fail in the model and excluded from the memory-safety theorem by hypothesis.",
+            "memory-unsafe inputs of the real code (arrays of var-sized structs given array data; packed bit-fields "
+            "whose storage unit passes the end of the struct) are finding classes, proved to fail in the model and "
+            "excluded from the memory-safety theorem by hypothesis.",
     "technique": "Lean 4 proof (mutual structural induction over initialisers; conversion = execution of a store list) + "
                  "differential correspondence of four real code paths, a Python byte oracle and the model driver",
 }
@@ -69,15 +71,11 @@ ASSUMPTIONS = ["layouts (offsets, sizes, bit positions) are inputs read from the
                "calloc fails above 2^47 bytes (never exercised between 2^20 and the Py_ssize_t overflow boundary)"]
 TRUSTED_EXTRA = ["harness/corr_C20.py: the Python byte oracle (second, independent implementation of the conversion rules)"]
 
-CLS_A = "C20/varsize-toplevel-cdata"
 CLS_B = "C20/varsize-struct-as-array-item"
-CLS_C = "C20/zero-size-item-open-array"
 CLS_D = "C20/packed-bitfield-unit-past-struct-end"
 CLASSES = {
     CLS_D: lambda case: bool(case.get("flags", {}).get("bitfield_overrun")),
-    CLS_A: lambda case: bool(case.get("flags", {}).get("top_cdata_var")),
     CLS_B: lambda case: bool(case.get("flags", {}).get("oracle_oob")) and not case.get("flags", {}).get("bitfield_overrun"),
-    CLS_C: lambda case: bool(case.get("flags", {}).get("oracle_divzero")),
 }
 
 LIMIT = 1 << 47
@@ -99,7 +97,7 @@ def gen_batch(rng):
         nm = "f%d" % j
         r = rng.random()
         fixed = [a for a in aggs if not a["var"]]
-        var = [a for a in aggs if a["var"] and not a["zero"]]
+        var = [a for a in aggs if a["var"]]
         if last and r < 0.30:
             # trailing open array
             k = rng.random()
@@ -114,7 +112,7 @@ def gen_batch(rng):
             if k < 0.88:
                 return "%s %s[][%d];" % (rng.choice(INT_TYPES), nm, rng.randint(1, 3)), True, False
             if k < 0.91:
-                return "int %s[][0];" % nm, True, True        # items of size zero: finding class C
+                return "int %s[][0];" % nm, True, False       # items of size zero (SIGFPE before commit 5e115e5)
             if k < 0.95 and var:
                 return "%s %s[];" % (rng.choice(var)["name"], nm), True, False   # open array of var-sized structs
             return "%s %s[];" % (rng.choice(INT_TYPES), nm), True, False
@@ -274,6 +272,23 @@ def py_wf(t):
         if end > t["size"] or not py_wf(ft):
             return False
     return True
+
+
+def zero_open_reached(t, node):
+    """Does the initialiser name (or reach positionally) an open array whose items have size 0?"""
+    if t["k"] != "agg" or node[0] not in ("seq", "dict"):
+        return False
+    if node[0] == "seq":
+        pairs = list(zip(ctor_fields(t), node[1]))
+    else:
+        by = {f["name"]: f for f in t["fields"]}
+        pairs = [(by[k], c) for k, c in node[1] if isinstance(k, str) and k in by]
+    for f, c in pairs:
+        if is_open(f["t"]) and f["t"]["isz"] == 0:
+            return True
+        if f["t"]["k"] == "agg" and zero_open_reached(f["t"], c):
+            return True
+    return False
 
 
 def ctor_fields(t):
@@ -600,9 +615,7 @@ class Oracle:
 
     @staticmethod
     def add_var(off, isz, n, cur):
-        if isz == 0:
-            raise Rej("DIVZERO")
-        size = off + isz * n
+        size = off + isz * n                  # itemsize 0: no division, the array adds nothing
         if size >= (1 << 63):
             raise Rej("OverflowError")
         return max(cur, size)
@@ -753,7 +766,7 @@ class Oracle:
             if t["k"] == "char":
                 size *= 2
             if with_var(t):
-                if v is not None:
+                if v is not None and v[0] not in ("cdata", "ptr"):     # !CData_Check(init)
                     size = self.pre_struct(t, v, size, True)
                 length = size
         else:
@@ -774,7 +787,7 @@ class Oracle:
         return size, length, v
 
     def new(self, kind, t, v):
-        """('ok', image, length slot or None) | ('err', exception name or 'OOB' / 'DIVZERO')"""
+        """('ok', image, length slot or None) | ('err', exception name or 'OOB')"""
         try:
             size, length, v = self.alloc(kind, t, v)
             m = OMem(size)
@@ -841,6 +854,21 @@ def dirty_heap(ffi, n):
             ffi.memmove(b, b"\xaa" * (n + d), n + d)
             blocks.append(b)
     del blocks
+
+
+def survives_in_child(fn):
+    """Run fn() in a forked child; 0 if the child lived (whatever fn raised), else the fatal signal."""
+    sys.stdout.flush()
+    sys.stderr.flush()
+    pid = os.fork()
+    if pid == 0:
+        try:
+            fn()
+        except BaseException:
+            pass
+        os._exit(0)
+    _, status = os.waitpid(pid, 0)
+    return os.WTERMSIG(status) if os.WIFSIGNALED(status) else 0
 
 
 def impl_new(ffi, kind, texpr, t, obj, has_init, expect_size):
@@ -924,10 +952,13 @@ def run_case(ctx, ffi, tree_cache, case, lines, expects, oracle_only, listed):
     orc = Oracle(real)
     has_init = node is not None
     exp = orc.new(kind, t, node)
-    flags = {"top_cdata_var": bool(has_init and kind == "ptr" and node[0] == "cdata" and with_var(t)
-                                   and ffi.typeof(node[1]) is ct),
-             "oracle_oob": exp == ("err", "OOB"), "oracle_divzero": exp == ("err", "DIVZERO"),
-             "bitfield_overrun": exp == ("err", "OOB") and not py_wf(t)}
+    flags = {"oracle_oob": exp == ("err", "OOB"), "bitfield_overrun": exp == ("err", "OOB") and not py_wf(t)}
+    # the two input shapes whose defects were repaired in /repo (ff94e40, 5e115e5) are ordinary cases now
+    if has_init and kind == "ptr" and node[0] == "cdata" and with_var(t) and ffi.typeof(node[1]) is ct:
+        ctx.count("shape:var-sized struct initialised with a cdata of itself")
+    zero_shape = has_init and zero_open_reached(t, node)
+    if zero_shape:
+        ctx.count("shape:open array of zero-size items reached by the initialiser")
     case["flags"] = flags
     key = None
     if has_init and nontrivial(t, node):
@@ -947,10 +978,10 @@ def run_case(ctx, ffi, tree_cache, case, lines, expects, oracle_only, listed):
                                                                                    "detail": detail})
 
     # ---- the two memory-unsafe classes: never executed through ffi.new in this process
-    if flags["oracle_oob"] or flags["oracle_divzero"]:
+    if flags["oracle_oob"]:
         if not oracle_only:
             lines.append("new %d %s %s %s" % (LIMIT, kind, tp, ip))
-            expects.append((case, "err OOB" if flags["oracle_oob"] else "err DIVZERO", "new (unsafe class, not executed)"))
+            expects.append((case, "err OOB", "new (unsafe class, not executed)"))
         if flags["bitfield_overrun"]:
             known(CLS_D, "packed layout: the storage unit of a bit-field extends past the end of its struct; "
                          "convert_from_object_bitfield reads and rewrites bytes outside the allocation")
@@ -964,8 +995,6 @@ def run_case(ctx, ffi, tree_cache, case, lines, expects, oracle_only, listed):
                       % (texpr, need, size))
             else:
                 ctx.count("unsafe-class-not-visible")
-        elif flags["oracle_divzero"]:
-            known(CLS_C, "open array with items of size 0: add_varsize_length divides by zero")
         else:
             ctx.count("unsafe-class-not-visible")
         return
@@ -997,12 +1026,20 @@ def run_case(ctx, ffi, tree_cache, case, lines, expects, oracle_only, listed):
             return
 
     # ---- size probe for var-sized structs: the same lengths, no data -- the allocation ffi.new would make
+    if zero_shape and kind == "ptr":
+        # this shape used to die of SIGFPE in add_varsize_length (repaired by 5e115e5): let a forked child go
+        # first, so that a regression is a reported failing input instead of the death of the check
+        sig = survives_in_child(lambda: ffi.new(ffi.getctype(ct, "*"), obj))
+        if sig:
+            ctx.fail(case, "ffi.new(%s *, init) kills the interpreter with signal %d" % (texpr, sig))
+            return
+
     prepass_ok = True
     try:
         orc.alloc(kind, t, node)
     except Rej:
         prepass_ok = False
-    if can_big and kind == "ptr" and with_var(t) and prepass_ok and not flags["top_cdata_var"]:
+    if can_big and kind == "ptr" and with_var(t) and prepass_ok:
         # what the conversion stores (also when it stops with an exception half way)
         img = big[1] if big[0] == "ok" else big[2]
         need = max(len(img.rstrip(b"\0")), o[2], len(exp[1]) if exp[0] == "ok" else 0)
@@ -1030,14 +1067,6 @@ def run_case(ctx, ffi, tree_cache, case, lines, expects, oracle_only, listed):
         else:
             canon = "err " + got[1]
         expects.append((case, canon, "new"))
-
-    # ---- class A: the whole initialiser of a var-sized struct is a cdata of that struct
-    if flags["top_cdata_var"]:
-        if got[0] == "err" and big[0] == "ok":
-            known(CLS_A, "ffi.new(%s *, cdata) raises %s, p[0] = cdata succeeds" % (texpr, got[1]))
-        elif got[0] == "ok" and big[0] == "ok" and (big[1][:len(got[1])] != got[1] or any(big[1][len(got[1]):])):
-            ctx.fail(case, "new(T, cdata) and p[0] = cdata leave different bytes")
-        return
 
     # ---- the oracle's verdict on ffi.new itself
     if exp[0] == "err":
@@ -1293,29 +1322,11 @@ def check_witness(ctx, finding):
         if r.returncode == 0:
             return False
         raise InfraError("witness of %s could not be evaluated: %s" % (cls, r.stderr[-500:]))
-    if cls == CLS_A:
-        ffi = make_ffi(w["cdef"], False)
-        src = ffi.new(w["T"] + " *", [5, [7, 7]])
-        try:
-            ffi.new(w["T"] + " *", src[0])
-            new_ok = True
-        except Exception:
-            new_ok = False
-        buf = ffi.new("char[]", 64)
-        q = ffi.cast(w["T"] + " *", buf)
-        try:
-            q[0] = src[0]
-            assign_ok = True
-        except Exception:
-            assign_ok = False
-        return assign_ok and not new_ok
     try:
         r = subprocess.run([sys.executable, "-c", _WITNESS_CHILD, json.dumps(w)], stdout=subprocess.PIPE,
                            stderr=subprocess.PIPE, universal_newlines=True, timeout=120)
     except subprocess.TimeoutExpired:
         raise InfraError("witness of %s timed out" % cls)
-    if cls == CLS_C:
-        return r.returncode == -8          # SIGFPE
     if cls == CLS_B:
         if r.returncode < 0:
             return True                    # the heap corruption was fatal this time
